@@ -64,6 +64,7 @@ func (s *selfSeed) add(segment IndexSegment) {
 		delete(s.cache, s.written)
 		s.written = next
 	}
+	verifYield("ss.add", "first", segment.first, "last", segment.last, "written", s.written)
 }
 
 // getChunk returns a segment with the requested chunk ID. If selfSeed doesn't
@@ -76,6 +77,7 @@ func (s *selfSeed) getChunk(id ChunkID) SeedSegment {
 		return nil
 	}
 	first := pos[0]
+	verifYield("ss.get", "id", id, "first", first)
 	return newFileSeedSegment(s.file, s.index.Chunks[first:first+1], s.canReflink)
 }
 
